@@ -191,3 +191,125 @@ def check_c15(tier, seed, log=print):
 
 def stack_check(run, r, tier, seed, log=print):
     return dict(note='not built yet')
+
+
+# ---------------------------------------------------------------------------------------------
+# C14: API histories
+# ---------------------------------------------------------------------------------------------
+import re as _re
+
+
+def libcheck_enums():
+    """enum sources of TokA / TokB exactly as compiled into libcheck (so that the model lexes the same definitions)"""
+    txt = open(os.path.join(LIB, 'src', 'main.rs')).read()
+    out = {}
+    for name in ('TokA', 'TokB'):
+        m = _re.search(r'(#\[derive\(Logos[^\n]*\n(?:#\[logos[^\n]*\n)*pub enum %s \{.*?\n\})' % name, txt, _re.S)
+        out[name] = m.group(1)
+    return out
+
+
+def gen_history(R, src_len):
+    ops = []
+    npool = 1
+    for _ in range(R.choice([3, 5, 8, 12])):
+        r = R.random()
+        i = R.randrange(npool + 1)
+        if r < 0.4:
+            ops += ['next', str(i)]
+        elif r < 0.55:
+            ops += ['snext', str(i)]
+        elif r < 0.7:
+            n = R.choice([0, 1, 1, 2, 3, src_len, src_len + 1, 2 ** 64 - 1, 2 ** 63])
+            ops += ['bump', str(i), str(n)]
+        elif r < 0.85:
+            ops += ['clone', str(i)]
+            npool += 1
+        else:
+            ops += ['morph', str(i)]
+    return ops
+
+
+def check_c14(tier, seed, log=print):
+    from common import Run, audit, load_theorems, TRUSTED_BASE
+    run = Run('C14', tier, seed)
+    au = audit('C14', load_theorems('C14'))
+    for pb in au['problems']:
+        run.violation('proof', dict(theorem_audit=pb), no_input=True)
+    P.build_harness()
+    P.build_lean()
+    bins = build_libcheck(LIBCFG[tier])
+    enums = libcheck_enums()
+    caps = P.run_capture([enums['TokA'], enums['TokB']])
+    if any(c is None or c.verdict != 'ACCEPT' for c in caps):
+        run.violation('setup', dict(what='libcheck token types not accepted by the derive'), no_input=True)
+        return run.finish()
+    R = random.Random(seed)
+    srcs = ['', 'a', 'ab 12', 'ab  cd é', 'é', 'x1 y2  z3', 'aé b', '12ab!é?', 'hello world 42', '中a']
+    n_hist = 150 if tier == 'quick' else 2000
+    reqs = []
+    for k in range(n_hist):
+        s = R.choice(srcs).encode('utf-8')
+        partial = 1 if R.random() < 0.2 else 0
+        ops = gen_history(R, len(s))
+        reqs.append('API %s %d %s' % (P.hexs(s), partial, ' '.join(ops)))
+    # model: TokA's `Ws` leaf has the callback logos::skip (zoo callback kind 3)
+    lines = ['CASE A'] + caps[0].dump
+    ws = [i for i, l in enumerate(caps[0].leaves) if l[3] == 'Ws']
+    for i in ws:
+        lines.append('CB %d 3' % i)
+    lines += ['CASE B'] + caps[1].dump
+    for rq in reqs:
+        t = rq.split(' ')
+        lines.append('Q API A B %s %s %s' % (t[1], t[2], ' '.join(t[3:])))
+    ans = P.run_lean(lines, nproc=0)
+    model = {}
+    for rq in reqs:
+        t = rq.split(' ')
+        model[rq] = ans.get('B API A B %s %s %s' % (t[1], t[2], ' '.join(t[3:])))
+    evals = 0
+    nontriv = set()
+    samples = []
+    tie_dis = 0
+    opcount = {}
+    for name, (binp, err) in bins.items():
+        if binp is None:
+            run.violation('libcheck-build', dict(config=name, stderr=err), no_input=True)
+            continue
+        out, rc = run_lib(binp, reqs)
+        for rq in reqs:
+            v = out.get(rq)
+            evals += 1
+            ops = rq.split(' ')[3:]
+            for o in ops:
+                if o.isalpha():
+                    opcount[o] = opcount.get(o, 0) + 1
+            if 'clone' in ops and 'morph' in ops:
+                nontriv.add(rq)
+            msg = None
+            if v is None:
+                msg = 'no answer (process died?)'
+            elif 'BADSPAN' in v or 'BADSLICE' in v or v == 'PANIC':
+                msg = 'slice()/remainder() disagree with source[span()] or the span is invalid: ' + v
+            if msg:
+                run.violation('api', dict(config=name, request=rq, observed=v, what=msg), key='api|' + rq)
+                continue
+            # property oracle on the implementation itself: a clone must not disturb its original.
+            # (checked through the model: the model is pure, so any interference shows up as a difference)
+            mv = model.get(rq)
+            if mv is not None and mv != v:
+                tie_dis += 1
+                run.violation('api-differs', dict(config=name, request=rq, observed=v, model=mv,
+                                                  what='the history gives different results on the real Lexer and on the pure model (in which clones are independent, morph preserves position/extras, spanned = manual iteration by construction)'),
+                              key='apidiff|' + rq)
+            elif len(samples) < 4 and 'clone' in ops and 'morph' in ops:
+                samples.append(dict(request=rq, observed=v))
+    run.coverage.update(dict(obligations=au['obligations'], discharged=au['discharged'], theorems=au['names'], axioms=au['axioms'],
+                             checker_cmd=au['checker_cmd'], trusted_base=TRUSTED_BASE,
+                             evaluations=evals, distinct_nontrivial=len(nontriv), op_mix=opcount, configs=list(bins),
+                             rule='random histories of next / spanned-next / bump (in range, out of range, overflowing) / clone / morph on a pool of lexers of two token types over one str source, ordinary and partial, '
+                                  'run on the real Lexer (debug/release x default/forbid_unsafe; after every call span, slice == source[span], remainder == source[end..], extras are checked) and on the Lean pool model over the captured graphs of the same two definitions; non-trivial = history contains clone and morph',
+                             samples=samples, model_vs_impl_disagreements=tie_dis))
+    run.assumptions += ['extras are a constant carried along (the token types have no extras-mutating callbacks)',
+                        'api_in_range is proved for ordinary lexers; partial lexers are covered by the correspondence only']
+    return run.finish()
